@@ -162,7 +162,7 @@ def run(tier, seed):
     try:
         ok, blog = coq_build(["props/C08.vo", "corr/C08corr.vo"])
         proofs_ok, pa = proof_obligations(work, res, "C08.v", ok, blog)
-        gate = coq_gate()
+        gate = m4x.gate_for(["props/C08.v", "corr/C08corr.v"])
         if gate:
             proofs_ok = False
             pa += "\nforbidden constructs: " + "; ".join(gate[:10])
